@@ -403,3 +403,4 @@ PROPS["C13"]["mir"].append(ob("storage_close_dumps", "ob_worker", "storage_close
 PROPS["C12"]["mir"].append(ob("storage_close_dumps_c12", "ob_worker", "storage_close_dumps"))
 PROPS["C01"]["mir"].append(ob("storage_read_glue", "ob_blobread", "storage_read_glue"))
 PROPS["C02"]["mir"].append(ob("storage_read_glue_c02", "ob_blobread", "storage_read_glue"))
+PROPS["C02"]["mir"].append(ob("delete_entry_glue", "ob_delete", "delete_entry_glue"))
